@@ -1,4 +1,4 @@
-import Lemmas.EvalRender
+import Lemmas.EvalFull
 import Generated.Facts
 /-! # C09 — expression evaluation follows operator precedence and never crashes
 
@@ -82,6 +82,43 @@ theorem table_lexable : LexTable stdOps where
   un61 := by decide
   lastE := by decide
 
+theorem lpOp_eq : lpOp = ⟨LP, 0, false, false⟩ := by decide
+theorem rpOp_eq : rpOp = ⟨RP, 0, false, false⟩ := by decide
+
+/-- the side conditions of the call layer hold for the regenerated table: `(` and `)` are found at every `(` / `)`
+    byte (they are the first two entries), and no other operator symbol contains `(`, `)`, `,` or `$` -/
+theorem table_full : FullTable stdOps lpOp rpOp where
+  toLexTable := table_lexable
+  lpS := by decide
+  rpS := by decide
+  lpU := by decide
+  lp40 := by
+    intro pre t
+    rw [lpOp_eq]
+    simp [firstMatch, stdOps, opsOf, Facts.fixedOperators, symBytes, String.utf8EncodeChar, Op.matchAt, MINUS, LP,
+      List.find?, List.isPrefixOf]
+  rp41 := by
+    intro pre t
+    rw [rpOp_eq]
+    simp [firstMatch, stdOps, opsOf, Facts.fixedOperators, symBytes, String.utf8EncodeChar, Op.matchAt, MINUS, RP,
+      List.find?, List.isPrefixOf]
+  lpM := by decide
+  rpM := by decide
+  symPlain := by
+    intro o ho h1 h2
+    apply plain_of_all
+    have : stdOps.all (fun o => o.sym == LP || o.sym == RP ||
+        o.sym.all (fun c => c != 40 && c != 41 && c != 44 && c != 36)) = true := by decide
+    have := List.all_eq_true.mp this o ho
+    simpa [h1, h2] using this
+  unPlain := by
+    intro o ho hu
+    apply plain_of_all
+    have : stdOps.all (fun o => !o.un || o.sym.all (fun c => c != 40 && c != 41 && c != 44 && c != 36)) = true := by
+      decide
+    have := List.all_eq_true.mp this o ho
+    simpa [hu] using this
+
 /-- **parse ∘ render = tree** (clauses "conventional precedence", "left-to-right associativity", "whitespace never
     changes the result", structure part), character level, for every expression built from atoms (non-empty runs of
     printable ASCII bytes that start no operator and do not end in `e`), the binary operators of the table, signs/
@@ -89,14 +126,14 @@ theorem table_lexable : LexTable stdOps where
     left associativity require them (`WF`) and with ANY runs of blank/tab/newline/return between tokens: the model
     parser returns exactly the expression tree.  Restricted (hence `_partial`): no function calls, no exponent
     literals `1e-2`, no variables containing operator bytes. -/
-theorem parse_render_partial (fns : List Bytes) (e : E) (hw : e.WF lpOp.prec) (hin : e.In stdOps)
+theorem parse_render_partial (fns : List Bytes) (e : E) (hw : e.WF lpOp.prec) (hin : e.In stdOps fns)
     (ws : Nat → Bytes) (hws : ∀ k, Blank (ws k)) :
     parseTop stdOps fns (render ws 0 (e.toks lpOp rpOp)) = .ok (some e.toTree) :=
-  parseTop_render stdOps fns table_lexable lpOp rpOp (by decide) (by decide) (by decide) (by decide) (by decide)
+  parseTop_render stdOps fns table_lexable lpOp rpOp (by decide) (by decide) table_full.toParenTable
     e hw hin ws hws
 
 /-- the same for the table of the floating-point evaluator -/
-theorem parse_render_float_partial (fns : List Bytes) (e : E) (hw : e.WF lpOp.prec) (hin : e.In stdOps)
+theorem parse_render_float_partial (fns : List Bytes) (e : E) (hw : e.WF lpOp.prec) (hin : e.In stdOps fns)
     (ws : Nat → Bytes) (hws : ∀ k, Blank (ws k)) :
     parseTop floatOps fns (render ws 0 (e.toks lpOp rpOp)) = .ok (some e.toTree) := by
   rw [float_table_eq]; exact parse_render_partial fns e hw hin ws hws
@@ -204,14 +241,14 @@ theorem eval_tree (ev : Bytes → R Bytes) (resolve : Option (Bytes → Bytes)) 
     blank layout of a well-formed expression returns its fully bracketed form (so the value is determined by the
     expression tree, not by the layout) -/
 theorem evaluate_render_partial (fns : List Bytes) (resolve : Option (Bytes → Bytes)) (e : E) (hw : e.WF lpOp.prec)
-    (hin : e.In stdOps) (he : e.Evaluable) (ws : Nat → Bytes) (hws : ∀ k, Blank (ws k)) (depth : Nat) :
+    (hin : e.In stdOps fns) (he : e.Evaluable) (ws : Nat → Bytes) (hws : ∀ k, Blank (ws k)) (depth : Nat) :
     evaluate stdOps fns resolve (depth + 1) (render ws 0 (e.toks lpOp rpOp)) = .ok e.str :=
-  evaluate_render stdOps fns resolve table_lexable lpOp rpOp (by decide) (by decide) (by decide) (by decide)
-    (by decide) e hw hin he ws hws depth
+  evaluate_render stdOps fns resolve table_lexable lpOp rpOp (by decide) (by decide) table_full.toParenTable
+    e hw hin he ws hws depth
 
 /-- clause "whitespace never changes the result" (structure part): two layouts of the same expression evaluate alike -/
 theorem whitespace_irrelevant_partial (fns : List Bytes) (resolve : Option (Bytes → Bytes)) (e : E)
-    (hw : e.WF lpOp.prec) (hin : e.In stdOps) (he : e.Evaluable) (ws₁ ws₂ : Nat → Bytes) (h₁ : ∀ k, Blank (ws₁ k))
+    (hw : e.WF lpOp.prec) (hin : e.In stdOps fns) (he : e.Evaluable) (ws₁ ws₂ : Nat → Bytes) (h₁ : ∀ k, Blank (ws₁ k))
     (h₂ : ∀ k, Blank (ws₂ k)) (d₁ d₂ : Nat) :
     evaluate stdOps fns resolve (d₁ + 1) (render ws₁ 0 (e.toks lpOp rpOp)) =
       evaluate stdOps fns resolve (d₂ + 1) (render ws₂ 0 (e.toks lpOp rpOp)) := by
@@ -229,7 +266,7 @@ theorem reuse_eq_fresh (ops : List Op) (fns : List Bytes) (resolve : Option (Byt
     (evaluateReuse ops fns resolve old s).2 = (evaluateReuse ops fns resolve {} s).2 := rfl
 
 /-! non-vacuity: the hypotheses of `parse_render_partial` are met by `1 - -2 * (3 + 4)` -/
-example : ∃ e : E, e.WF lpOp.prec ∧ e.In stdOps ∧ e.toTree ≠ .nil := by
+example : ∃ e : E, e.WF lpOp.prec ∧ e.In stdOps [] ∧ e.toTree ≠ .nil := by
   have hm : ⟨symBytes "-", 50, true, true⟩ ∈ stdOps := by decide
   have ht : ⟨symBytes "*", 60, true, false⟩ ∈ stdOps := by decide
   have hpl : ⟨symBytes "+", 50, true, true⟩ ∈ stdOps := by decide
